@@ -12,12 +12,20 @@ LEVEL_TEXT = ("Theorems: the `_flood_fill` kernel regenerated from island.py on 
               "model, for every ntree and every symmetric adjacency: same label <=> connected and touched, untouched => -1, labels are 0..nisland-1 numbered by smallest tree, stack depth <= ntree^2 "
               "(the allocated scratch), all writes in bounds, fuel beyond n^2 irrelevant; `_tree_edges` writes symmetric entries; the dof maps built by the count/scan/map kernels are mutually "
               "inverse permutations of [0,nv) with island dofs first in idofadr order for ANY thread order (slot inside a block is order dependent); the constraint maps are a bijection "
-              "on island constraints only (`_partial` + witness: rows without island keep 0). Real islands are compared with MuJoCo's mj_island on random constraint graphs.")
-LEVEL_NOTE = "C28_partial: constraint maps (see above); launch-level identification of Data arrays across kernels is hand-encoded. Trusted: Lean kernel, tier-B translator (interception)."
-ASSUMPTIONS = ["oracle: mujoco tree_island/nisland partition and numbering; sleeping enabled to make MJWarp compute islands"]
+              "on island constraints only (`_partial` + witness: rows without island keep 0). Oracle on the real pipeline (mjw.forward with sleeping enabled): islands vs MuJoCo's mj_island on "
+              "constraint graphs made of EVERY row type (connect/weld/joint equality, dof friction, tendon friction, joint and tendon limits, frictionless/pyramidal/elliptic contacts; dense and sparse "
+              "Jacobian; worlds with different nefc); every row's trees share one island; efc.island, island_nefc/ne/nf/iefcadr equal a NumPy recount of the produced rows by type and MuJoCo C's "
+              "per-island counts; map_efc2iefc/map_iefc2efc are mutually inverse between the island rows and [0, sum island_nefc), each island owning its block in equality / friction (dof and tendon) "
+              "/ other order, efc_islandid consistent; dof maps inverse permutations packed per island with dof_island, island_nv/idofadr/dofadr, nidof, dof_islandid consistent.")
+LEVEL_NOTE = ("C28_partial: constraint maps (see above); launch-level identification of Data arrays across kernels is hand-encoded. The oracle takes the island of a row from the trees with a nonzero "
+              "Jacobian entry (contact rows with a vanishing Jacobian: from the contact's geoms; other identically-zero rows: the code's own efc.island, counted in hits). Slot order inside a block is "
+              "thread-order dependent and deliberately not compared with MuJoCo. Trusted: Lean kernel, tier-B translator (interception).")
+ASSUMPTIONS = ["oracle: mujoco tree_island/nisland partition and numbering and island_nv/idofadr/dofadr/nefc/ne/nf/iefcadr; sleeping enabled to make MJWarp compute islands",
+               "oracle: the maps are only computed for ntree > 1 (solve() skips compute_island_mapping otherwise); tendon equalities are not generated (MuJoCo 3.13 refuses them with sleeping enabled)"]
 
 
 def _scene(rng):
+  """equality-only scenes (the original distribution; keeps the zero-Jacobian connect-to-world rows in the mix)"""
   n = int(rng.integers(2, 7))
   bodies, eqs = [], []
   for i in range(n):
@@ -31,67 +39,353 @@ def _scene(rng):
     a = int(rng.integers(n))
     eqs.append(f'<connect body1="b{a}" anchor="0 0 0"/>')   # to the world: self edge
   return f"""<mujoco><option><flag sleep="enable"/></option><worldbody><geom type="plane" size="5 5 .1"/>{''.join(bodies)}</worldbody>
-  <equality>{''.join(eqs)}</equality></mujoco>"""
+  <equality>{''.join(eqs)}</equality></mujoco>""", None
+
+
+# constraint row types (mujoco_warp.ConstraintType == mjtConstraint)
+_EQ, _FDOF, _FTEN, _LJNT, _LTEN, _CFL, _CPYR, _CELL = range(8)
+_TYPE_NAME = {_EQ: "equality", _FDOF: "friction_dof", _FTEN: "friction_tendon", _LJNT: "limit_joint", _LTEN: "limit_tendon", _CFL: "contact_frictionless",
+              _CPYR: "contact_pyramidal", _CELL: "contact_elliptic"}
+
+
+def _cat(t):
+  """block of a row inside its island: 0 equality, 1 friction (dof or tendon), 2 everything else"""
+  return 0 if t == _EQ else (1 if t in (_FDOF, _FTEN) else 2)
+
+
+def _scene_rows(rng, c):
+  """scenes with every constraint row type; the case number `c` rotates the rare combinations deterministically:
+  Jacobian dense/sparse (c%2), cone (c//2 %2), and the mix that shares an island (c%3): 0 = a tendon with frictionloss over two trees one of whose
+  joints is beyond its limit (friction_tendon + limit_joint in ONE island), 1 = tendon friction + contact of the same tree, 2 = free draw.
+  Returns (xml, qpos alternatives per scalar joint name)."""
+  force = c % 3
+  n = int(rng.integers(3, 7))
+  jac = "dense" if c % 2 == 0 else "sparse"
+  cone = "pyramidal" if (c // 2) % 2 == 0 else "elliptic"
+  bodies, scal, onfloor, kinds = [], [], [], []
+  x = 0.0
+  for i in range(n):
+    kind = str(rng.choice(["free", "hinge", "slide", "chain"], p=[0.3, 0.3, 0.2, 0.2]))
+    if force != 2 and i < 2:
+      kind = "hinge" if i == 0 else str(rng.choice(["hinge", "slide", "chain"]))
+    elif force == 2 and i == 0:
+      kind = "free"   # joint ids and dof ids of the later trees differ
+    floor = bool(rng.random() < 0.45) or (force == 1 and i == 0)
+    # a neighbour at 0.15 < 2 * 0.1 overlaps the previous tree's sphere: contact row between two trees
+    x += 0.15 if (i > 0 and rng.random() < 0.25) else 0.5
+    z = 0.09 if floor else 1.0 + 0.4 * i
+    condim = int(rng.choice([1, 3, 4, 6]))
+    fl = lambda: f' frictionloss="{rng.uniform(0.1, 1):.2f}"' if rng.random() < 0.35 else ""
+    lim = lambda: ' limited="true" range="-0.2 0.2"' if rng.random() < 0.5 else ""
+    if kind == "free":
+      jt, inner = "<freejoint/>", ""
+    elif kind == "hinge":
+      l0 = ' limited="true" range="-0.2 0.2"' if (force == 0 and i == 0) else lim()
+      jt, inner = f'<joint name="j{i}a" type="hinge" axis="0 1 0"{l0}{fl()}/>', ""
+      scal.append(f"j{i}a")
+    elif kind == "slide":
+      jt, inner = f'<joint name="j{i}a" type="slide" axis="0 1 0"{lim()}{fl()}/>', ""
+      scal.append(f"j{i}a")
+    else:
+      jt = f'<joint name="j{i}a" type="hinge" axis="0 1 0"{lim()}{fl()}/>'
+      inner = (f'<body name="b{i}c" pos="0 0 .3"><joint name="j{i}b" type="hinge" axis="1 0 0"{lim()}{fl()}/><geom type="sphere" size=".05" pos="0 0 .1" '
+               f'contype="0" conaffinity="0"/><site name="s{i}c" pos="0 0 .1"/></body>')
+      scal += [f"j{i}a", f"j{i}b"]
+    bodies.append(f'<body name="b{i}" pos="{x:.2f} 0 {z:.2f}">{jt}<geom type="sphere" size=".1" pos=".02 0 0" condim="{condim}"/><site name="s{i}" pos=".02 0 0"/>{inner}</body>')
+    onfloor.append(floor)
+    kinds.append(kind)
+  tendons, eqs = [], []
+  tree_of = lambda j: int(j[1:-1])
+  nten = 0
+  if len(scal) >= 1:
+    for k in range(int(rng.integers(1 if force != 2 else 0, 4))):
+      forced = force != 2 and k == 0
+      if forced:   # first tendon: joint of tree 0 and a joint of tree 1, with frictionloss
+        js = ["j0a", [j for j in scal if tree_of(j) == 1][0]]
+      else:
+        js = [str(j) for j in rng.choice(scal, size=min(len(scal), int(rng.integers(1, 3))), replace=False)]
+      att = f' frictionloss="{rng.uniform(0.1, 1):.2f}"' if (forced or rng.random() < 0.55) else ""
+      att += ' limited="true" range="-0.05 0.05"' if rng.random() < 0.45 else ""
+      coefs = "".join(f'<joint joint="{j}" coef="{rng.choice([-2, -1, 1, 2])}"/>' for j in js)
+      tendons.append(f'<fixed name="t{nten}"{att}>{coefs}</fixed>')
+      nten += 1
+  if rng.random() < 0.3:   # spatial tendon between two trees; limit active whenever the sites are further apart than 0.1
+    a, b = rng.choice(n, size=2, replace=False)
+    att = f' frictionloss="{rng.uniform(0.1, 1):.2f}"' if rng.random() < 0.6 else ""
+    att += ' limited="true" range="0 0.1"' if rng.random() < 0.6 else ""
+    tendons.append(f'<spatial name="t{nten}"{att}><site site="s{a}"/><site site="s{b}"/></spatial>')
+    nten += 1
+  for _ in range(int(rng.integers(0, 3))):
+    r = rng.random()
+    a, b = rng.choice(n, size=2, replace=False)
+    if r < 0.25:
+      eqs.append(f'<connect body1="b{a}" body2="b{b}" anchor="0 0 0"/>')
+    elif r < 0.5:
+      eqs.append(f'<weld body1="b{a}" body2="b{b}"/>')
+    elif r < 0.6:
+      eqs.append(f'<connect body1="b{a}" anchor=".3 .1 0"/>')
+    elif len(scal) >= 2:   # (tendon equalities: MuJoCo 3.13 refuses them when sleeping is enabled)
+      j1, j2 = rng.choice(scal, size=2, replace=False)
+      eqs.append(f'<joint joint1="{j1}" joint2="{j2}"/>' if rng.random() < 0.7 else f'<joint joint1="{j1}"/>')
+  xml = f"""<mujoco><compiler angle="radian"/><option jacobian="{jac}" cone="{cone}"><flag sleep="enable"/></option>
+  <worldbody><geom type="plane" size="5 5 .1" condim="1"/>{''.join(bodies)}</worldbody>
+  <tendon>{''.join(tendons)}</tendon><equality>{''.join(eqs)}</equality></mujoco>"""
+  return xml, {"scal": scal, "force": force, "free_onfloor": [i for i in range(n) if kinds[i] == "free" and onfloor[i]]}
+
+
+def _qpos_worlds(rng, mjm, info, nworld):
+  """per-world qpos: scalar joints at 0 or beyond +-0.2 (their limit when limited), the forced joint beyond its limit in world 0;
+  in later worlds floor-resting free bodies may be lifted (their contact rows disappear: nefc differs between worlds)"""
+  import mujoco
+  out = []
+  for w in range(nworld):
+    q = mjm.qpos0.copy()
+    for j in info["scal"]:
+      jid = mujoco.mj_name2id(mjm, mujoco.mjtObj.mjOBJ_JOINT, j)
+      q[mjm.jnt_qposadr[jid]] = float(rng.choice([0.0, 0.3, -0.3], p=[0.4, 0.3, 0.3]))
+    if w == 0 and info["force"] == 0:
+      jid = mujoco.mj_name2id(mjm, mujoco.mjtObj.mjOBJ_JOINT, "j0a")
+      q[mjm.jnt_qposadr[jid]] = 0.3
+    if w > 0:
+      for i in info["free_onfloor"]:
+        if rng.random() < 0.5:
+          bid = mujoco.mj_name2id(mjm, mujoco.mjtObj.mjOBJ_BODY, f"b{i}")
+          q[mjm.jnt_qposadr[mjm.body_jntadr[bid]] + 2] += 1.0
+    out.append(q)
+  return out
+
+
+def _row_trees(m, d, mjm, w, nefc):
+  """per active row: the set of trees with a numerically nonzero Jacobian entry (read off efc.J, dense or sparse)"""
+  T = np.asarray(mjm.dof_treeid)
+  if m.is_sparse:
+    ra, rn = d.efc.J_rowadr.numpy()[w], d.efc.J_rownnz.numpy()[w]
+    ci, Jv = d.efc.J_colind.numpy()[w][0], d.efc.J.numpy()[w][0]
+    out = []
+    for r in range(nefc):
+      sl = slice(int(ra[r]), int(ra[r]) + int(rn[r]))
+      out.append(set(int(T[c]) for c, v in zip(ci[sl], Jv[sl]) if v != 0))
+    return out
+  J = d.efc.J.numpy()[w][:nefc, : mjm.nv]
+  return [set(int(T[c]) for c in np.nonzero(J[r])[0]) for r in range(nefc)]
+
+
+def _check_maps(acc, mjm, m, d, w, ref, replay):
+  """world w: dof maps, constraint maps and per-island counts against (i) a NumPy recount from the rows mujoco_warp itself produced
+  (efc.type, efc.J, tree_island) and (ii) MuJoCo C's per-island counts for the same state `ref`.  Returns False when an overflow made the world unusable."""
+  nv, ntree = mjm.nv, mjm.ntree
+  nefc = int(d.nefc.numpy()[w])
+  if nefc > d.njmax:
+    acc.hit("skip:njmax-overflow")
+    return False
+  nisl = int(d.nisland.numpy()[w])
+  ti = d.tree_island.numpy()[w, :ntree]
+  T = np.asarray(mjm.dof_treeid)
+  if nisl < 0 or nisl > ntree or np.any(ti >= nisl):
+    acc.find(f"nisland {nisl} / tree_island {ti.tolist()} out of range", "island.island", "island-range", world=w, **replay)
+    return True
+  ti = np.where(ti < 0, -1, ti)
+
+  # ---- dof side
+  d2i, i2d = d.map_dof2idof.numpy()[w, :nv], d.map_idof2dof.numpy()[w, :nv]
+  if sorted(d2i.tolist()) != list(range(nv)) or not np.array_equal(i2d[d2i], np.arange(nv)):
+    acc.find("dof maps are not mutually inverse permutations", "island._island_map_dofs", "dof-maps", world=w, dof2idof=d2i.tolist(), idof2dof=i2d.tolist(), **replay)
+  else:
+    want_di = ti[T]
+    want_nv = np.array([int((want_di == k).sum()) for k in range(nisl)], dtype=int)
+    want_adr = np.concatenate([[0], np.cumsum(want_nv)[:-1]]).astype(int) if nisl else np.zeros(0, int)
+    got = {"dof_island": d.dof_island.numpy()[w, :nv], "island_nv": d.island_nv.numpy()[w, :nisl], "island_idofadr": d.island_idofadr.numpy()[w, :nisl],
+           "nidof": int(d.nidof.numpy()[w]), "island_dofadr": d.island_dofadr.numpy()[w, :nisl]}
+    want = {"dof_island": want_di, "island_nv": want_nv, "island_idofadr": want_adr, "nidof": int(want_nv.sum()),
+            "island_dofadr": np.array([int(np.nonzero(want_di == k)[0].min()) if want_nv[k] else nv for k in range(nisl)], dtype=int)}
+    bad = [k for k in want if not np.array_equal(np.asarray(got[k]), np.asarray(want[k]))]
+    idid = d.dof_islandid.numpy()[w, :nv]
+    for k in range(nisl):
+      slots = np.sort(d2i[want_di == k])
+      if not np.array_equal(slots, np.arange(want_adr[k], want_adr[k] + want_nv[k])):
+        bad.append(f"block{k}")
+      elif np.any(idid[slots] != k):
+        bad.append(f"dof_islandid{k}")
+    if bad:
+      acc.find(f"dof side of the island maps inconsistent with tree_island: {bad}; " + "; ".join(f"{k} {np.asarray(got[k]).tolist()} expected {np.asarray(want[k]).tolist()}" for k in want if k in bad),
+               "island._island_map_dofs", "dof-blocks", world=w, **replay)
+
+  # ---- constraint side
+  et = d.efc.type.numpy()[w, :nefc]
+  ei = d.efc.island.numpy()[w, :nefc]
+  rows = _row_trees(m, d, mjm, w, nefc)
+  # a contact row whose Jacobian vanishes identically (slide joint along the floor, frictionless normal through a hinge axis) still is an edge
+  # between the trees of its two geoms: read them off the contact the row belongs to
+  if any(not ts and int(et[r]) in (_CFL, _CPYR, _CELL) for r, ts in enumerate(rows)):
+    cg, eidx = d.contact.geom.numpy(), d.efc.id.numpy()[w, :nefc]
+    for r, ts in enumerate(rows):
+      if not ts and int(et[r]) in (_CFL, _CPYR, _CELL):
+        acc.hit("row:zero-jacobian(contact, trees from its geoms)")
+        rows[r] = set(int(mjm.body_treeid[mjm.geom_bodyid[g]]) for g in cg[int(eidx[r])] if g >= 0) - {-1}
+  exp = np.full(nefc, -1, dtype=int)
+  for r, ts in enumerate(rows):
+    isl = set(int(ti[t]) for t in ts)
+    if -1 in isl:
+      acc.find(f"row {r} ({_TYPE_NAME.get(int(et[r]))}) has a nonzero Jacobian in trees {sorted(ts)} but tree_island is {ti.tolist()}: a touched tree without island",
+               "island._tree_edges", "touched-no-island", world=w, **replay)
+      return True
+    if len(isl) > 1:
+      acc.find(f"row {r} ({_TYPE_NAME.get(int(et[r]))}) couples trees {sorted(ts)} that lie in different islands, tree_island {ti.tolist()}", "island._tree_edges", "row-spans-islands", world=w, **replay)
+      return True
+    if isl:
+      exp[r] = isl.pop()
+    else:   # identically zero non-contact row: no independent information about its tree, take the code's word (range checked)
+      acc.hit("row:zero-jacobian(non-contact)")
+      exp[r] = int(ei[r]) if -1 <= int(ei[r]) < nisl else -2
+  if not np.array_equal(ei, exp):
+    acc.find(f"efc.island {ei.tolist()} but the islands of the trees the rows act on are {exp.tolist()}", "island._compute_efc_tree/_island_count_constraints", "efc-island", world=w, **replay)
+    return True
+  cats = np.array([_cat(int(t)) for t in et], dtype=int)
+  want_nefc = np.array([int((exp == k).sum()) for k in range(nisl)], dtype=int)
+  want_ne = np.array([int(((exp == k) & (cats == 0)).sum()) for k in range(nisl)], dtype=int)
+  want_nf = np.array([int(((exp == k) & (cats == 1)).sum()) for k in range(nisl)], dtype=int)
+  want_adr = np.concatenate([[0], np.cumsum(want_nefc)[:-1]]).astype(int) if nisl else np.zeros(0, int)
+  got = {"island_nefc": d.island_nefc.numpy()[w, :nisl], "island_ne": d.island_ne.numpy()[w, :nisl], "island_nf": d.island_nf.numpy()[w, :nisl],
+         "island_iefcadr": d.island_iefcadr.numpy()[w, :nisl]}
+  want = {"island_nefc": want_nefc, "island_ne": want_ne, "island_nf": want_nf, "island_iefcadr": want_adr}
+  types_present = sorted(set(int(t) for t in et[exp >= 0]))
+  for k in want:
+    if not np.array_equal(got[k], want[k]):
+      acc.find(f"{k} {got[k].tolist()} but recounting the rows of each island (types {et.tolist()}, islands {exp.tolist()}) gives {want[k].tolist()}",
+               "island._island_count_constraints" if k != "island_iefcadr" else "island._island_scan_sizes", "island-counts", world=w, field=k, **replay)
+      break
+  e2i, i2e = d.map_efc2iefc.numpy()[w, :nefc], d.map_iefc2efc.numpy()[w, : d.njmax]
+  eid = d.efc_islandid.numpy()[w, : d.njmax]
+  inisl = np.nonzero(exp >= 0)[0]
+  tot = int(want_nefc.sum())
+  msg = None
+  sl = e2i[inisl]
+  if np.any(sl < 0) or np.any(sl >= tot) or len(set(sl.tolist())) != len(sl):
+    msg = f"map_efc2iefc {e2i.tolist()} is not a bijection of the {len(inisl)} island rows onto [0,{tot})"
+  elif not np.array_equal(i2e[sl], inisl):
+    msg = f"map_iefc2efc {i2e[:tot].tolist()} is not the inverse of map_efc2iefc {e2i.tolist()}"
+  else:
+    for k in range(nisl):
+      rk = np.nonzero(exp == k)[0]
+      loc = e2i[rk] - want_adr[k]
+      if np.any(loc < 0) or np.any(loc >= want_nefc[k]):
+        msg = f"island {k}: rows {rk.tolist()} sit in slots {e2i[rk].tolist()}, outside [{want_adr[k]},{want_adr[k] + want_nefc[k]})"
+        break
+      wantcat = np.where(loc < want_ne[k], 0, np.where(loc < want_ne[k] + want_nf[k], 1, 2))
+      if not np.array_equal(wantcat, cats[rk]):
+        msg = (f"island {k}: rows of types {et[rk].tolist()} at local slots {loc.tolist()} do not follow the equality ({want_ne[k]}) / friction ({want_nf[k]}) / other order")
+        break
+      if np.any(eid[e2i[rk]] != k):
+        msg = f"island {k}: efc_islandid of its slots is {eid[e2i[rk]].tolist()}"
+        break
+  if msg:
+    acc.find(msg + f"; row types {et.tolist()}, row islands {exp.tolist()}", "island._island_map_constraints", "efc-maps", world=w, **replay)
+  for t in types_present:
+    acc.hit(f"island-row:{_TYPE_NAME.get(t, t)}")
+  for k in range(nisl):
+    cs = set(cats[exp == k].tolist())
+    if 1 in cs and 2 in cs:
+      acc.hit("island-with:friction+other")
+    ts_k = set(et[exp == k].tolist())
+    if _FTEN in ts_k and (ts_k & {_LJNT, _LTEN, _CFL, _CPYR, _CELL}):
+      acc.hit("island-with:tendon-friction+other")
+    if _FTEN in ts_k and _FDOF in ts_k:
+      acc.hit("island-with:tendon-friction+dof-friction")
+  if np.any(exp < 0):
+    acc.hit("row:without-island")
+  acc.distinct.add(("rows", tuple(types_present), nisl))
+
+  # ---- MuJoCo C, same state: per-island counts (only when the row set and the partition agree, which the other checks are about)
+  if ref is not None:
+    rn = int(ref.nisland)
+    rti = np.asarray(ref.tree_island[:ntree]).copy()
+    rti[(rti < 0) | (rti >= rn)] = -1
+    if rn == nisl and np.array_equal(rti, ti) and int(ref.nefc) == nefc and sorted(np.asarray(ref.efc_type[:nefc]).tolist()) == sorted(et.tolist()):
+      acc.hit("mujoco-counts:compared")
+      got.update({"island_nv": d.island_nv.numpy()[w, :nisl], "island_idofadr": d.island_idofadr.numpy()[w, :nisl], "island_dofadr": d.island_dofadr.numpy()[w, :nisl]})
+      for k in ("island_nv", "island_idofadr", "island_dofadr", "island_nefc", "island_ne", "island_nf", "island_iefcadr"):
+        rv = np.asarray(getattr(ref, k)[:nisl]).astype(int)
+        if not np.array_equal(np.asarray(got[k]).astype(int), rv):
+          acc.find(f"{k} {np.asarray(got[k]).tolist()} vs MuJoCo {rv.tolist()} (same islands, same rows; efc types {et.tolist()})", "island.compute_island_mapping", "vs-mujoco-counts", world=w, field=k, **replay)
+          break
+    else:
+      acc.hit("mujoco-counts:skipped(rows or partition differ)")
+  return True
 
 
 def _run(ctx, ncases, rec):
   import mujoco
   import mujoco_warp as mjw
+  import warp as wp
   rng = np.random.default_rng(ctx.seed * 1000 + 28)
   acc = Acc()
 
   def scenario():
     for c in range(ncases):
-      xml = _scene(rng)
+      # every 4th case is an equality-only scene, the others carry all row types
+      xml, info = _scene(rng) if c % 4 == 3 else _scene_rows(rng, c - c // 4)
       try:
         mjm = mujoco.MjModel.from_xml_string(xml)
-      except ValueError:
+      except ValueError as e:
+        acc.hit("skip:model-rejected")
         continue
-      mjd = mujoco.MjData(mjm)
-      mujoco.mj_forward(mjm, mjd)
       nworld = int(rng.integers(1, 3))
+      qs = _qpos_worlds(rng, mjm, info, nworld) if info else [mjm.qpos0.copy()] * nworld
+      refs = []
+      try:
+        for q in qs:
+          mjd = mujoco.MjData(mjm)
+          mjd.qpos[:] = q
+          mujoco.mj_forward(mjm, mjd)
+          refs.append(mjd)
+      except Exception:   # mujoco.FatalError: feature combination MuJoCo itself refuses
+        acc.hit("skip:mujoco-refused")
+        continue
+      replay = {"xml": xml, "qpos": [q.tolist() for q in qs]}
       try:
         m = mjw.put_model(mjm)
-        d = mjw.put_data(mjm, mjd, nworld=nworld)
+        d = mjw.put_data(mjm, refs[0], nworld=nworld, njmax=max(64, max(int(r.nefc) for r in refs) + 16), nconmax=max(32, max(int(r.ncon) for r in refs) + 8))
+        wp.copy(d.qpos, wp.array(np.asarray(qs, dtype=np.float32), dtype=float))
         mjw.forward(m, d)
       except Exception as e:
-        acc.find(f"forward with islands raised {type(e).__name__}: {e}", "island", "crash", xml=xml)
+        acc.find(f"forward with islands raised {type(e).__name__}: {e}", "island", "crash", **replay)
         continue
       acc.evals += 1
       ti = d.tree_island.numpy()
       ni = d.nisland.numpy()
-      ref = np.asarray(mjd.tree_island[: mjm.ntree]).copy() if hasattr(mjd, "tree_island") else None
-      if ref is not None:
+      for w in range(nworld):
+        mjd = refs[w]
+        ref = np.asarray(mjd.tree_island[: mjm.ntree]).copy()
         # MuJoCo leaves tree_island unwritten when it finds no island (stale memory, e.g. 21906): entries outside [0, nisland) mean "none"
         ref[(ref < 0) | (ref >= int(mjd.nisland))] = -1
-      for w in range(nworld):
         got = ti[w, : mjm.ntree]
-        if ref is not None:
-          # MuJoCo leaves negative sentinels (not necessarily -1) for trees without island
-          if int(ni[w]) != int(mjd.nisland) or not np.array_equal(np.maximum(got, -1), np.maximum(ref, -1)):
-            # an OBSERVED mismatch is attributed to the recorded constraint-stage deviation only when it is exactly that: mujoco_warp
-            # keeps equality rows whose Jacobian is identically zero (MuJoCo drops them), so their tree counts as constrained here
-            ne_w, n_w = int(d.ne.numpy()[w]), int(d.nefc.numpy()[w])
-            if ne_w > int(mjd.ne) and n_w - int(mjd.nefc) == ne_w - int(mjd.ne):
-              if m.is_sparse:
-                ra, rn, Jv = d.efc.J_rowadr.numpy()[w][:ne_w], d.efc.J_rownnz.numpy()[w][:ne_w], d.efc.J.numpy()[w][0]
-                nzero = sum(1 for r in range(ne_w) if not np.any(Jv[ra[r]: ra[r] + rn[r]] != 0))
-              else:
-                nzero = int((~np.any(d.efc.J.numpy()[w][:ne_w, : mjm.nv] != 0, axis=1)).sum())
-              if nzero >= ne_w - int(mjd.ne):
-                acc.find(f"tree_island {got.tolist()} vs MuJoCo {ref.tolist()}: {nzero} equality rows with identically zero Jacobian are kept here and dropped by MuJoCo, so their tree forms an island",
-                         "constraint._equality_connect/_equality_weld", "zero-jacobian-rows", xml=xml, world=w)
-                continue
-            acc.find(f"tree_island {got.tolist()} (nisland {int(ni[w])}) vs MuJoCo {ref.tolist()} (nisland {int(mjd.nisland)})", "island.island", "vs-mujoco", xml=xml, world=w)
-        # internal consistency: maps are inverse permutations
-        if hasattr(d, "map_dof2idof") and d.map_dof2idof is not None:
-          a, b = d.map_dof2idof.numpy()[w, : mjm.nv], d.map_idof2dof.numpy()[w, : mjm.nv]
-          if sorted(a.tolist()) != list(range(mjm.nv)) or not np.array_equal(b[a], np.arange(mjm.nv)):
-            acc.find("dof maps are not mutually inverse permutations", "island._island_map_dofs", "dof-maps", xml=xml, world=w, dof2idof=a.tolist(), idof2dof=b.tolist())
-      if int(mjd.nisland) > 0:
-        acc.distinct.add((c, int(mjd.nisland)))
-      acc.hit(f"nisland={int(mjd.nisland)}")
-      acc.sample({"ntree": int(mjm.ntree), "nisland": int(mjd.nisland), "tree_island": ti[0, : mjm.ntree].tolist()})
+        # MuJoCo leaves negative sentinels (not necessarily -1) for trees without island
+        if int(ni[w]) != int(mjd.nisland) or not np.array_equal(np.maximum(got, -1), np.maximum(ref, -1)):
+          # an OBSERVED mismatch is attributed to the recorded constraint-stage deviation only when it is exactly that: mujoco_warp
+          # keeps equality rows whose Jacobian is identically zero (MuJoCo drops them), so their tree counts as constrained here
+          ne_w, n_w = int(d.ne.numpy()[w]), int(d.nefc.numpy()[w])
+          known = False
+          if ne_w > int(mjd.ne) and n_w - int(mjd.nefc) == ne_w - int(mjd.ne):
+            if m.is_sparse:
+              ra, rn, Jv = d.efc.J_rowadr.numpy()[w][:ne_w], d.efc.J_rownnz.numpy()[w][:ne_w], d.efc.J.numpy()[w][0]
+              nzero = sum(1 for r in range(ne_w) if not np.any(Jv[ra[r]: ra[r] + rn[r]] != 0))
+            else:
+              nzero = int((~np.any(d.efc.J.numpy()[w][:ne_w, : mjm.nv] != 0, axis=1)).sum())
+            if nzero >= ne_w - int(mjd.ne):
+              acc.find(f"tree_island {got.tolist()} vs MuJoCo {ref.tolist()}: {nzero} equality rows with identically zero Jacobian are kept here and dropped by MuJoCo, so their tree forms an island",
+                       "constraint._equality_connect/_equality_weld", "zero-jacobian-rows", world=w, **replay)
+              known = True
+          if not known:
+            acc.find(f"tree_island {got.tolist()} (nisland {int(ni[w])}) vs MuJoCo {ref.tolist()} (nisland {int(mjd.nisland)})", "island.island", "vs-mujoco", world=w, **replay)
+        # maps and per-island counts (computed by solve() -> compute_island_mapping when ntree > 1)
+        if mjm.ntree > 1:
+          _check_maps(acc, mjm, m, d, w, mjd, replay)
+        if int(mjd.nisland) > 0:
+          acc.distinct.add((c, w, int(mjd.nisland)))
+        acc.hit(f"nisland={int(mjd.nisland)}")
+      acc.hit(f"jacobian={'sparse' if m.is_sparse else 'dense'}")
+      acc.hit(f"cone={'elliptic' if mjm.opt.cone == 1 else 'pyramidal'}")
+      acc.sample({"ntree": int(mjm.ntree), "nisland": int(refs[0].nisland), "tree_island": ti[0, : mjm.ntree].tolist(), "efc_type": d.efc.type.numpy()[0, : int(d.nefc.numpy()[0])].tolist()})
 
   if rec:
     kc, _ = intercept(KERNELS, scenario, rng, max_tids=24, per_kernel=3, replay_allocs=True)
@@ -101,8 +395,14 @@ def _run(ctx, ncases, rec):
   return acc, kc
 
 
-RULE = ("2-6 single-body trees (free or tightly limited hinge), each resting on the floor or floating, random connect/weld equalities between trees and to the world; sleeping enabled so that islands "
-        "are computed; tree_island/nisland vs MuJoCo, dof maps checked to be inverse permutations; distinct = (case, nisland) with nisland>0")
+RULE = ("3 of 4 cases: 3-6 trees (free / hinge / slide / two-hinge chain), resting on the floor, overlapping a neighbour or floating; joint frictionloss, joint limits (qpos 0 or +-0.3 against "
+        "range +-0.2), fixed tendons over 1-2 joints of any trees and spatial tendons between trees with frictionloss and/or limits, connect / weld / joint equalities, contacts with "
+        "condim 1/3/4/6; rotation by case number: Jacobian dense/sparse, cone pyramidal/elliptic, forced `tendon friction + joint limit in one island` and `tendon friction + contact`; 1-2 worlds "
+        "with different qpos (different nefc per world). Every 4th case: 2-6 single-body trees with random connect/weld equalities between trees and to the world. Sleeping enabled so that islands "
+        "are computed. Checked per world: tree_island/nisland vs MuJoCo; every row's trees (nonzero Jacobian entries) lie in one island and have one; efc.island, island_nefc/ne/nf/iefcadr against a "
+        "NumPy recount of mujoco_warp's own rows by type; map_efc2iefc/map_iefc2efc mutually inverse between island rows and [0, sum nefc), each island's slots = its block, ordered equality / "
+        "friction (dof AND tendon) / other, efc_islandid; dof maps inverse permutations packed per island (dof_island, island_nv/idofadr/dofadr, nidof, dof_islandid); per-island counts vs MuJoCo C "
+        "when partition and row multiset agree. hits `island-row:<type>` and `island-with:*` show which row types / mixes were really inside islands; distinct = (case, world, nisland>0) and (row types, nisland)")
 
 
 def correspondence(ctx):
@@ -112,4 +412,4 @@ def correspondence(ctx):
 
 def search(ctx, breaks):
   acc, _ = _run(ctx, 120, False)
-  return search_result(acc, "MuJoCo's island partition/numbering + inverse-permutation check")
+  return search_result(acc, "MuJoCo's island partition/numbering and per-island counts + NumPy recount of rows per island and type + inverse-map / block-order check of the dof and constraint maps")
